@@ -133,6 +133,15 @@ def gen_case(rng, pid, tier):
                 ops.append(['kill', o])
                 live.discard(o)
                 if o in clients and rng.random() < (0.5 if malformed else 0.9):
+                    if rng.random() < 0.2 and len(owners) > 1:
+                        # the removal of the environment mark fails once (ipset / iptables error) and the release
+                        # is retried; the name is not seen again (container unique names are never reused, and
+                        # a name whose release failed half-way is the one case where reuse would matter)
+                        ops.append(['sdelete', o, True])
+                        ops.append(['sdelete', o])
+                        owners = [x for x in owners if x != o]
+                        clients = {x for x in clients if x != o} if isinstance(clients, set) else [x for x in clients if x != o]
+                        continue
                     ops.append(['sdelete', o])
                 if rng.random() < 0.7:
                     # somebody collects while the owner is gone
@@ -426,7 +435,8 @@ def _run(case, root):
             j(links), j(sorted(str(intern(o)) for o in live_now())), j(sorted(devs)), j(kd), j(p), j(n))
 
     # ---- monitor state (independent of the model) ---------------------------------------------------
-    beliefs = {}                     # owner -> set of (tbl, name-in-directory)
+    beliefs = {}
+    cut_deleted = set()     # owners whose service-side release was interrupted by a fault                     # owner -> set of (tbl, name-in-directory)
     dom = {'vip': True, 'svip': True, 'rule': True, 'ep': True}   # still inside the property's domain?
     stats = {'contended_release': 0, 'gc_mixed': 0, 'repeat': 0, 'gc': 0, 'reuse': 0, 'exhausted': 0,
              'non_owner_release': 0, 'eexist': 0}
@@ -754,7 +764,7 @@ def _run(case, root):
                     res = 'ip:%d' % ip_int(ip)
                     if not _is_host(svc_tm_net, ipaddress.IPv4Address(ip)):
                         hit('ip-not-a-host-address', site, '%s not a host of %s' % (ip, svc_tm_net))
-                    if prev and dom['svip'] and who in live_before:
+                    if prev and dom['svip'] and who in live_before and who not in cut_deleted:
                         stats['reuse'] += 1
                         stats['repeat'] += 1
                         if prev != [ip]:
@@ -767,7 +777,22 @@ def _run(case, root):
                     who = op[1]
                     line = 'sdelete %d' % intern(who)
                     site = 'NetworkResourceService.on_delete_request'
-                    svc.on_delete_request(who)
+                    if len(op) > 2 and op[2]:
+                        line = 'sdeletecut %d' % intern(who)
+                        site = 'NetworkResourceService.on_delete_request(mark removal fails)'
+                        kind = 'sdeletecut'
+
+                        def _boom(*_a, **_kw):
+                            raise Exception('harness: injected ipset failure')      # pylint: disable=broad-except
+                        # (the owner asked for the release: whatever happens, it no longer relies on the address;
+                        # "a repeated request gets the same address" is not expected of a name whose release failed
+                        # half-way - unique names are never reused in the first place)
+                        beliefs[who] = {k for k in beliefs.get(who, ()) if k[0] != 'svip'}
+                        cut_deleted.add(who)
+                        with mock.patch.object(network_service, '_delete_mark_rule', _boom):
+                            svc.on_delete_request(who)
+                    else:
+                        svc.on_delete_request(who)
                     beliefs[who] = {k for k in beliefs.get(who, ()) if k[0] != 'svip'}
                 elif kind == 'ssync':
                     line, site = 'ssync', 'NetworkResourceService.synchronize'
